@@ -695,45 +695,167 @@ theorem skipDecision_key {s : State} {e e' : Entry} {i : LockIn} (h : skipDecisi
   · exact trySkip_key h
   · cases h
 
+theorem recordKey_skip {i : LockIn} {s : State} {k : Key} (h : skipKey i k = true) : recordKey i s k = s := by
+  unfold recordKey; rw [if_pos h]
+
+/-- a successful request for one key that is skipped moves nothing but the primary -/
+theorem lockOk_single_skip {i : LockIn} {k : Key} {al : Bool} (hwf : wfLock i = true) (hsk : skipKey i k = true)
+    (s1 : State) : lockOk s1 i [k] al =
+      { okStart s1 i al with lockedCnt := (okStart s1 i al).lockedCnt
+          + ((([k] : List Key).length : Int) - ((([k] : List Key).filter (skipKey i)).length : Int)) } := by
+  unfold lockOk
+  simp only [lwcErr_false hwf, Bool.false_eq_true, if_false, List.foldl_cons, List.foldl_nil]
+  rw [recordKey_skip hsk]
+  rfl
+
+/-- putting an entry back into lastRetryUnnecessaryLocks re-establishes the invariant when its key was the only
+    untracked lock and lockedCnt still counts it -/
+theorem putBack_inv {r : State} {e : Entry} (hsub : ∀ x, x ∈ r.store → x ∈ tracked r ∨ x = e.key)
+    (hcnt : ((r.current.length + r.lastRetry.length + r.flagged.length + 1 : Nat) : Int) ≤ r.lockedCnt)
+    (ha : r.inAgg = true) (hcl : r.closed = false) : Inv { r with lastRetry := upsertE r.lastRetry e } := by
+  refine ⟨?_, ?_, ?_, ?_⟩
+  · intro x hx
+    refine mem_tracked.2 ?_
+    rcases hsub x hx with h | h
+    · rcases mem_tracked.1 h with h | h | h
+      · exact Or.inl h
+      · exact Or.inr (Or.inl (mem_keysOf_upsertE.2 (Or.inr h)))
+      · exact Or.inr (Or.inr h)
+    · exact Or.inr (Or.inl (mem_keysOf_upsertE.2 (Or.inl h)))
+  · have := length_upsertE_le r.lastRetry e
+    show (((r.current.length + (upsertE r.lastRetry e).length + r.flagged.length : Nat)) : Int) ≤ r.lockedCnt
+    omega
+  · intro hf
+    have : r.inAgg = false := hf
+    rw [ha] at this; cases this
+  · intro hc
+    have : r.closed = true := hc
+    rw [hcl] at this; cases this
+
+/-- the re-request of a key taken out of lastRetryUnnecessaryLocks: registered, rolled back, or put back -/
+theorem lockResend_inv {s : State} {i : LockIn} {k : Key} {al : Bool} {e : Entry} (hek : e.key = k)
+    (hsub : ∀ x, x ∈ s.store → x ∈ tracked s ∨ x = k)
+    (hcnt : ((s.current.length + s.lastRetry.length + s.flagged.length + 1 : Nat) : Int) ≤ s.lockedCnt)
+    (ha : s.inAgg = true) (hcl : s.closed = false) (hwf : wfLock i = true) : Inv (lockResend s i k al e) := by
+  have hcnt0 : ((s.current.length + s.lastRetry.length + s.flagged.length : Nat) : Int) ≤ s.lockedCnt := by omega
+  have hnag : s.inAgg = false → s.current = [] ∧ s.lastRetry = [] := by
+    intro hf; rw [ha] at hf; cases hf
+  unfold lockResend
+  cases herr : i.err with
+  | none =>
+    simp only []
+    split
+    · rename_i hsk
+      -- skipped: nothing recorded, nothing rolled back — the entry goes back
+      have hr : lockSend s i [k] al =
+          lockOk { s with req := [k], store := s.store ++ [k].filter fun x => (ansOf i x).acq } i [k] al := by
+        unfold lockSend; rw [herr]
+      rw [hr, lockOk_single_skip hwf hsk]
+      refine putBack_inv ?_ ?_ ?_ ?_
+      · intro x hx
+        have hx' : x ∈ s.store ++ [k].filter fun x => (ansOf i x).acq := by
+          have := hx; simpa using this
+        rcases List.mem_append.1 hx' with h | h
+        · rcases hsub x h with h | h
+          · left
+            refine mem_tracked.2 ?_
+            rcases mem_tracked.1 h with h | h | h
+            · exact Or.inl (by simpa using h)
+            · exact Or.inr (Or.inl (by simpa using h))
+            · exact Or.inr (Or.inr (by simpa using h))
+          · right; rw [hek]; exact h
+        · right
+          rw [hek]
+          exact List.mem_singleton.1 (List.mem_filter.1 h).1
+      · show (((okStart _ i al).current.length + (okStart _ i al).lastRetry.length
+            + (okStart _ i al).flagged.length + 1 : Nat) : Int)
+            ≤ (okStart _ i al).lockedCnt + ((([k] : List Key).length : Int) - ((([k] : List Key).filter (skipKey i)).length : Int))
+        rw [okStart_current, okStart_lastRetry, okStart_flagged, okStart_cnt]
+        simp only [List.filter_cons, hsk, if_true, List.filter_nil, List.length_cons, List.length_nil]
+        show ((s.current.length + s.lastRetry.length + s.flagged.length + 1 : Nat) : Int) ≤ s.lockedCnt + _
+        omega
+      · show (okStart _ i al).inAgg = true
+        rw [okStart_inAgg]; exact ha
+      · show (okStart _ i al).closed = false
+        rw [okStart_closed]; exact hcl
+    · rename_i hsk
+      refine lockSend_inv ?_ hcnt0 hnag hcl hwf
+      intro x hx
+      rcases hsub x hx with h | h
+      · exact Or.inl h
+      · refine Or.inr ⟨by rw [h]; exact List.mem_singleton.2 rfl, ?_⟩
+        rw [herr, h]; simpa using hsk
+  | some er =>
+    simp only []
+    split
+    · rename_i hnr
+      refine lockSend_inv ?_ hcnt0 hnag hcl hwf
+      intro x hx
+      rcases hsub x hx with h | h
+      · exact Or.inl h
+      · refine Or.inr ⟨by rw [h]; exact List.mem_singleton.2 rfl, ?_⟩
+        rw [herr]; exact hnr
+    · rename_i hnr
+      -- one key, write conflict / key exists: no rollback — the entry goes back
+      have hr : lockSend s i [k] al =
+          lockFail { s with req := [k], store := s.store ++ [k].filter fun x => (ansOf i x).acq } [k] al er := by
+        unfold lockSend; rw [herr]
+      rw [hr]
+      refine putBack_inv ?_ ?_ ?_ ?_
+      · intro x hx
+        rw [lockFail_store, if_neg hnr] at hx
+        have hx' : x ∈ s.store ++ [k].filter fun x => (ansOf i x).acq := hx
+        rcases List.mem_append.1 hx' with h | h
+        · rcases hsub x h with h | h
+          · left
+            refine mem_tracked.2 ?_
+            rw [lockFail_current, if_neg hnr, lockFail_lastRetry, lockFail_flagged]
+            exact mem_tracked.1 h
+          · right; rw [hek]; exact h
+        · right
+          rw [hek]
+          exact List.mem_singleton.1 (List.mem_filter.1 h).1
+      · rw [lockFail_current, if_neg hnr, lockFail_lastRetry, lockFail_flagged, lockFail_cnt]
+        exact hcnt
+      · rw [lockFail_inAgg]; exact ha
+      · rw [lockFail_closed]; exact hcl
+
 theorem lockAgg_inv {s : State} {i : LockIn} {k : Key} {al : Bool} (h : Inv s) (ha : s.inAgg = true)
-    (hcl : s.closed = false) (hwf : wfLock i = true)
-    (hcov : ∀ e, findE s.lastRetry k = some e → covered i [k] k) : Inv (lockAgg s i k al) := by
+    (hcl : s.closed = false) (hwf : wfLock i = true) : Inv (lockAgg s i k al) := by
   have hc := h.cnt
   unfold lockAgg
   split
   · exact lockSend_inv (fun x hx => Or.inl (h.sub x hx)) h.cnt h.nag hcl hwf
   · rename_i e he
     have hk : k ∈ keysOf s.lastRetry := findE_some_mem_keysOf he
+    have hek : e.key = k := (findE_some he).2
     have hlt := length_eraseE_lt hk
     -- the state with the key taken out of lastRetryUnnecessaryLocks
-    have hsub' : ∀ x, x ∈ (takeOut s k).store → x ∈ tracked (takeOut s k) ∨ covered i [k] x := by
+    have hsub' : ∀ x, x ∈ (takeOut s k).store → x ∈ tracked (takeOut s k) ∨ x = k := by
       intro x hx
       rcases mem_tracked.1 (h.sub x hx) with h1 | h1 | h1
       · exact Or.inl (mem_tracked.2 (Or.inl h1))
       · by_cases hxk : x = k
-        · subst hxk; exact Or.inr (hcov e he)
+        · exact Or.inr hxk
         · exact Or.inl (mem_tracked.2 (Or.inr (Or.inl (mem_keysOf_eraseE.2 ⟨h1, hxk⟩))))
       · exact Or.inl (mem_tracked.2 (Or.inr (Or.inr h1)))
-    have hcnt' : ((((takeOut s k).current.length + (takeOut s k).lastRetry.length + (takeOut s k).flagged.length : Nat)) : Int)
+    have hcnt' : ((((takeOut s k).current.length + (takeOut s k).lastRetry.length + (takeOut s k).flagged.length + 1 : Nat)) : Int)
         ≤ (takeOut s k).lockedCnt := by
-      show (((s.current.length + (eraseE s.lastRetry k).length + s.flagged.length : Nat)) : Int) ≤ s.lockedCnt
+      show (((s.current.length + (eraseE s.lastRetry k).length + s.flagged.length + 1 : Nat)) : Int) ≤ s.lockedCnt
       omega
-    have hnag' : (takeOut s k).inAgg = false → (takeOut s k).current = [] ∧ (takeOut s k).lastRetry = [] := by
-      intro hf
-      have : s.inAgg = false := hf
-      rw [ha] at this; cases this
+    have ha' : (takeOut s k).inAgg = true := ha
     have hcl' : (takeOut s k).closed = false := hcl
     unfold lockAggFound
     split
     · exact h.of_eq rfl rfl rfl rfl rfl rfl rfl
     · cases hd : skipDecision s e i with
-      | none => exact lockSend_inv hsub' hcnt' hnag' hcl' hwf
+      | none => exact lockResend_inv hek hsub' hcnt' ha' hcl' hwf
       | some e' =>
-        have hkey : e'.key = k := by rw [skipDecision_key hd]; exact (findE_some he).2
-        show Inv (aggSkip s i k al e')
+        have hkey : e'.key = k := by rw [skipDecision_key hd]; exact hek
+        show Inv (aggSkip s i k al e e')
         unfold aggSkip
         split
-        · exact lockSend_inv hsub' hcnt' hnag' hcl' hwf
+        · exact lockResend_inv hek hsub' hcnt' ha' hcl' hwf
         · -- skipped: the entry moves from lastRetryUnnecessaryLocks to currentLockedKeys, no request
           refine ⟨?_, ?_, ?_, ?_⟩
           · intro x hx
@@ -810,38 +932,20 @@ theorem normKeys_needLock_single {s : State} {keys : List Key} {k : Key} (hl : k
     · simp [normKeys] at h
   | _ :: _ :: _, hl => simp at hl
 
-theorem not_excluded_covered {s : State} {i : LockIn} {k : Key} (hx : excludedLock s i = false) (hk : i.keys = [k])
-    (ha : s.inAgg = true) {e : Entry} (he : findE s.lastRetry k = some e) : covered i [k] k := by
-  have hr : relock s i = some k := by simp [relock, hk, ha, he]
-  unfold excludedLock at hx
-  rw [hr] at hx
-  refine ⟨List.mem_singleton.2 rfl, ?_⟩
-  cases herr : i.err with
-  | none => rw [herr] at hx; exact hx
-  | some er =>
-    rw [herr] at hx
-    cases er <;> simp_all [needRollback]
-
 theorem lockGo_inv {s0 : State} {i : LockIn} {keys : List Key} {al : Bool} (h : Inv s0) (hcl : s0.closed = false)
-    (hwf : wfLock i = true)
-    (hcov : ∀ k e, s0.inAgg = true → keys = [k] → findE s0.lastRetry k = some e → covered i [k] k) :
-    Inv (lockGo (selPrim s0 keys) i keys al) := by
+    (hwf : wfLock i = true) : Inv (lockGo (selPrim s0 keys) i keys al) := by
   have h1 := selPrim_inv h keys
   have hcl1 : (selPrim s0 keys).closed = false := by simpa using hcl
   unfold lockGo
   split
   · rename_i ha
     split
-    · rename_i k
-      refine lockAgg_inv h1 ha hcl1 hwf ?_
-      intro e he
-      rw [selPrim_lastRetry] at he
-      exact hcov k e (by simpa using ha) rfl he
+    · exact lockAgg_inv h1 ha hcl1 hwf
     · exact lockSend_inv (fun x hx => Or.inl (h1.sub x hx)) h1.cnt h1.nag hcl1 hwf
   · exact lockSend_inv (fun x hx => Or.inl (h1.sub x hx)) h1.cnt h1.nag hcl1 hwf
 
-theorem lockStep_inv {s : State} {i : LockIn} (h : Inv s) (hcl : s.closed = false) (hwf : wfLock i = true)
-    (hx : excludedLock s i = false) : Inv (lockStep s i) := by
+theorem lockStep_inv {s : State} {i : LockIn} (h : Inv s) (hcl : s.closed = false) (hwf : wfLock i = true) :
+    Inv (lockStep s i) := by
   have h0 := preLock_inv h i
   have hcl0 : (preLock s i).closed = false := by rw [preLock_closed]; exact hcl
   simp only [lockStep]
@@ -853,11 +957,7 @@ theorem lockStep_inv {s : State} {i : LockIn} (h : Inv s) (hcl : s.closed = fals
       · exact h0.of_eq rfl rfl rfl rfl rfl rfl rfl
       · split
         · exact h0.of_eq rfl rfl rfl rfl rfl rfl rfl
-        · refine lockGo_inv h0 hcl0 hwf ?_
-          intro k e ha hk he
-          obtain ⟨hs, ha', hlen⟩ := preLock_inAgg ha
-          rw [hs] at hk he
-          exact not_excluded_covered hx (normKeys_needLock_single hlen hk) ha' he
+        · exact lockGo_inv h0 hcl0 hwf
 
 /-! ### every op, every admissible sequence -/
 
@@ -887,8 +987,7 @@ theorem step_inv {s : State} {op : Op} (h : Inv s) (hok : s.closed = true ∨ ok
     | rollback => exact (rollbackStep_inv hc hok').1
     | commit => exact (commitStep_inv hc hok').1
     | lock i =>
-      simp only [okStep, Bool.and_eq_true, Bool.not_eq_true'] at hok'
-      exact lockStep_inv hc hcl hok'.1 hok'.2
+      exact lockStep_inv hc hcl hok'
     | pne k => exact pneStep_inv hc k
 
 theorem run_inv : ∀ (ops : List Op) (s : State), Inv s → Admissible s ops = true → Inv (run s ops) := by
@@ -899,164 +998,6 @@ theorem run_inv : ∀ (ops : List Op) (s : State), Inv s → Admissible s ops = 
     intro s h ha
     simp only [Admissible, Bool.and_eq_true, Bool.or_eq_true] at ha
     exact ih (step s op) (step_inv h ha.1) ha.2
-
-/-! ### the exclusion is exact -/
-
-theorem mem_leaked_open {s : State} {k : Key} (hc : s.closed = false) (hs : k ∈ s.store)
-    (h1 : k ∉ keysOf s.current) (h2 : k ∉ keysOf s.lastRetry) (h3 : k ∉ fkeys s.flagged) : k ∈ leaked s := by
-  have hnt : k ∉ tracked s := fun h => by
-    rcases mem_tracked.1 h with h | h | h
-    · exact h1 h
-    · exact h2 h
-    · exact h3 h
-  unfold leaked
-  rw [hc]
-  simp only [Bool.false_eq_true, if_false]
-  exact List.mem_filter.2 ⟨hs, by simp [hnt]⟩
-
-theorem recordKey_skip {i : LockIn} {s : State} {k : Key} (h : skipKey i k = true) : recordKey i s k = s := by
-  unfold recordKey; rw [if_pos h]
-
-/-- a request for the one key `k` that ends in one of the two bad ways leaves `k` exactly where it was: held by the store
-    if it was, and in none of the client's sets if it was in none -/
-theorem lockSend_excluded_leaks {s : State} {i : LockIn} {k : Key} {al : Bool} (hcl : s.closed = false)
-    (hwf : wfLock i = true)
-    (hbad : match i.err with
-      | none => skipKey i k = true
-      | some e => needRollback [k] e = false)
-    (hst : k ∈ s.store) (h1 : k ∉ keysOf s.current) (h2 : k ∉ keysOf s.lastRetry) (h3 : k ∉ fkeys s.flagged) :
-    k ∈ leaked (lockSend s i [k] al) := by
-  unfold lockSend
-  cases herr : i.err with
-  | none =>
-    rw [herr] at hbad
-    simp only []
-    have hok : ∀ s1 : State, lockOk s1 i [k] al =
-        { okStart s1 i al with lockedCnt := (okStart s1 i al).lockedCnt
-            + ((([k] : List Key).length : Int) - ((([k] : List Key).filter (skipKey i)).length : Int)) } := by
-      intro s1
-      unfold lockOk
-      simp only [lwcErr_false hwf, Bool.false_eq_true, if_false, List.foldl_cons, List.foldl_nil]
-      rw [recordKey_skip hbad]
-      rfl
-    rw [hok]
-    refine mem_leaked_open ?_ ?_ ?_ ?_ ?_
-    · show (okStart _ i al).closed = false
-      rw [okStart_closed]; exact hcl
-    · show k ∈ (okStart _ i al).store
-      rw [okStart_store]; exact List.mem_append_left _ hst
-    · show k ∉ keysOf (okStart _ i al).current
-      rw [okStart_current]; exact h1
-    · show k ∉ keysOf (okStart _ i al).lastRetry
-      rw [okStart_lastRetry]; exact h2
-    · show k ∉ fkeys (okStart _ i al).flagged
-      rw [okStart_flagged]; exact h3
-  | some e =>
-    rw [herr] at hbad
-    simp only []
-    have hnr : ¬ needRollback [k] e = true := by rw [hbad]; exact Bool.false_ne_true
-    refine mem_leaked_open ?_ ?_ ?_ ?_ ?_
-    · rw [lockFail_closed]; exact hcl
-    · rw [lockFail_store, if_neg hnr]; exact List.mem_append_left _ hst
-    · rw [lockFail_current, if_neg hnr]; exact h1
-    · rw [lockFail_lastRetry]; exact h2
-    · rw [lockFail_flagged]; exact h3
-
-theorem findE_none_of_not_mem {l : List Entry} {k : Key} (h : k ∉ keysOf l) : findE l k = none := by
-  unfold findE
-  refine List.find?_eq_none.2 ?_
-  intro e he hk
-  exact h (mem_keysOf.2 ⟨e, he, by simpa using hk⟩)
-
-/-- THE EXCLUSION IS EXACT: whenever a lock call is in the excluded situation, its request is really sent (`req ≠ []`)
-    and the store still holds the lock of the previous attempt on the key, the key is leaked right after the call — held
-    by the store, in none of the client's sets -/
-theorem excluded_lock_leaks {s : State} {i : LockIn} {k : Key} (hcl : s.closed = false) (hwf : wfLock i = true)
-    (hr : relock s i = some k) (hx : excludedLock s i = true) (hs0 : s.req = [])
-    (hreq : (lockStep s i).req ≠ [])
-    (hst : k ∈ s.store) (hc : k ∉ keysOf s.current) (hf : k ∉ fkeys s.flagged) :
-    k ∈ leaked (lockStep s i) := by
-  -- the bad way out
-  have hbad : match i.err with
-      | none => skipKey i k = true
-      | some e => needRollback [k] e = false := by
-    unfold excludedLock at hx
-    rw [hr] at hx
-    cases herr : i.err with
-    | none => rw [herr] at hx; exact hx
-    | some e =>
-      rw [herr] at hx
-      cases e <;> simp_all [needRollback]
-  -- unpack `relock`
-  unfold relock at hr
-  split at hr
-  · rename_i k' hk
-    split at hr
-    · rename_i hcond
-      injection hr with hr
-      subst hr
-      simp only [Bool.and_eq_true, Option.isSome_iff_exists] at hcond
-      obtain ⟨ha, e, he⟩ := hcond
-      have hpre : preLock s i = s := by simp [preLock, hk]
-      have hcur : findE s.current k' = none := findE_none_of_not_mem hc
-      have hlook : look s k' = ⟨true, e.exist, true⟩ := by
-        unfold look
-        simp only [ha, if_true, hcur, he]
-      have hneed : needLock s i.keys = [k'] := by simp [needLock, hk, hlook]
-      have hnorm : normKeys [k'] = [k'] := by simp [normKeys, insertKey]
-      have hk2 : k' ∉ keysOf (eraseE s.lastRetry k') := fun h => (mem_keysOf_eraseE.1 h).2 rfl
-      simp only [lockStep, hpre, hneed, hnorm] at hreq ⊢
-      split
-      · rename_i h1; rw [if_pos h1] at hreq; exact (hreq hs0).elim
-      · rename_i h1
-        rw [if_neg h1] at hreq
-        simp only [List.isEmpty_cons, Bool.false_eq_true, if_false] at hreq ⊢
-        split
-        · rename_i h2; rw [if_pos h2] at hreq; exact (hreq hs0).elim
-        · rename_i h2
-          rw [if_neg h2] at hreq
-          split
-          · rename_i h3; rw [if_pos h3] at hreq; exact (hreq hs0).elim
-          · rename_i h3
-            rw [if_neg h3] at hreq
-            -- lockGo on the state with the primary settled
-            have hsa : (selPrim s [k']).inAgg = true := by rw [selPrim_inAgg]; exact ha
-            have hsl : findE (selPrim s [k']).lastRetry k' = some e := by rw [selPrim_lastRetry]; exact he
-            have hsreq : (selPrim s [k']).req = [] := by
-              unfold selPrim selectPrimary; split <;> (try split) <;> exact hs0
-            have hleak : ∀ al, k' ∈ leaked (lockSend (takeOut (selPrim s [k']) k') i [k'] al) := by
-              intro al
-              refine lockSend_excluded_leaks ?_ hwf hbad ?_ ?_ ?_ ?_
-              · show (selPrim s [k']).closed = false
-                rw [selPrim_closed]; exact hcl
-              · show k' ∈ (selPrim s [k']).store
-                rw [selPrim_store]; exact hst
-              · show k' ∉ keysOf (selPrim s [k']).current
-                rw [selPrim_current]; exact hc
-              · show k' ∉ keysOf (eraseE (selPrim s [k']).lastRetry k')
-                rw [selPrim_lastRetry]; exact hk2
-              · show k' ∉ fkeys (selPrim s [k']).flagged
-                rw [selPrim_flagged]; exact hf
-            unfold lockGo at hreq ⊢
-            rw [if_pos hsa] at hreq ⊢
-            simp only [lockAgg, hsl] at hreq ⊢
-            unfold lockAggFound at hreq ⊢
-            split
-            · rename_i h4; rw [if_pos h4] at hreq; exact (hreq hsreq).elim
-            · rename_i h4
-              rw [if_neg h4] at hreq
-              cases hd : skipDecision (selPrim s [k']) e i with
-              | none => simp only [hd] at hreq ⊢; exact hleak _
-              | some e' =>
-                simp only [hd] at hreq ⊢
-                unfold aggSkip at hreq ⊢
-                split
-                · exact hleak _
-                · rename_i h5
-                  rw [if_neg h5] at hreq
-                  exact (hreq hsreq).elim
-    · cases hr
-  · cases hr
 
 theorem run_append (s : State) (a b : List Op) : run s (a ++ b) = run (run s a) b := by
   simp [run, List.foldl_append]
@@ -1088,9 +1029,59 @@ theorem leaked_nil_of_inv {s : State} (h : Inv s) : leaked s = [] := by
     have := h.sub k hk
     simp [this]
 
-/-! ### witnesses: outside the admissible fragment the invariant fails -/
+/-! ### the code as it was before the repair
 
-/-- the known leak: attempt 1 locks key 1 (no value), retry, attempt 2 locks it with LockOnlyIfExists, answer "not found" -/
+  `Old.step` differs from `step` in one place: the re-request of a key taken out of lastRetryUnnecessaryLocks is a plain
+  `lockSend` — the entry is never put back.  Only used to state what the repair changed (witness sequences, `decide`). -/
+
+namespace Old
+
+def aggSkip (s : State) (i : LockIn) (k : Key) (al : Bool) (e' : Entry) : State :=
+  if i.mayExpire then lockSend (takeOut s k) i [k] al
+  else { takeOut s k with current := upsertE s.current e' }
+
+def lockAggFound (s : State) (i : LockIn) (k : Key) (al : Bool) (e : Entry) : State :=
+  if i.fu < e.lwc then { s with res := .errAggSanity }
+  else
+    match skipDecision s e i with
+    | some e' => aggSkip s i k al e'
+    | none => lockSend (takeOut s k) i [k] al
+
+def lockAgg (s : State) (i : LockIn) (k : Key) (al : Bool) : State :=
+  match findE s.lastRetry k with
+  | none => lockSend s i [k] al
+  | some e => lockAggFound s i k al e
+
+def lockGo (s : State) (i : LockIn) (keys : List Key) (al : Bool) : State :=
+  if s.inAgg then
+    match keys with
+    | [k] => lockAgg s i k al
+    | _ => lockSend s i keys al
+  else lockSend s i keys al
+
+def lockStep (s : State) (i : LockIn) : State :=
+  let s0 := preLock s i
+  let keys := needLock s0 i.keys
+  if earlyKE s0 i.keys then { s0 with res := .errKeyExists }
+  else if keys.isEmpty then s0
+  else if i.o.loie && !i.o.rv then { s0 with res := .errLoieNoRV }
+  else if i.o.loie && s0.primary.isNone && decide (keys.length > 1) then { s0 with res := .errLoieNoPrimary }
+  else lockGo (selPrim s0 (normKeys keys)) i (normKeys keys) s0.primary.isNone
+
+def step (s : State) (op : Op) : State :=
+  let s := clearOut s
+  if s.closed then { s with res := .closed } else
+  match op with
+  | .lock i => lockStep s i
+  | op => AggLock.step s op
+
+def run (s : State) (ops : List Op) : State := ops.foldl step s
+
+end Old
+
+/-! ### witnesses -/
+
+/-- the first leak: attempt 1 locks key 1 (no value), retry, attempt 2 locks it with LockOnlyIfExists, answer "not found" -/
 def witnessLoie : List Op :=
   [.start,
    .lock { keys := [1], fu := 10, mayExpire := true, ans := [{ key := 1, acq := true }] },
@@ -1098,7 +1089,7 @@ def witnessLoie : List Op :=
    .lock { keys := [1], o := { rv := true, loie := true }, fu := 11, ans := [{ key := 1, exist := false }] },
    .done]
 
-/-- its sibling: the re-request of the key (now with the presume-not-exists flag of an INSERT) is answered key exists -/
+/-- the second leak: the re-request of the key (now with the presume-not-exists flag of an INSERT) is answered key exists -/
 def witnessKeyExists : List Op :=
   [.start,
    .lock { keys := [1], fu := 10, mayExpire := true, ans := [{ key := 1, acq := true }] },
